@@ -34,14 +34,22 @@ def generate(rng, tier):
     n = 70 if tier == "quick" else 2000
     for _ci in range(n):
         yield gen_case(rng)
+    # every instrument limit, at the limit and one beyond, once per run (deterministic sweep: a changed limit in the
+    # source is then always met by a concrete input, not only when the random stream happens to draw it)
+    for fld, vals in (("twait", [3, 4, -1]), ("nrep", [16383, 16384, -1]), ("jump_input", [3, 4, -1]),
+                      ("jump_target", ["N", "N+1", -1, -2]), ("goto", ["N", "N+1", 0, -1])):
+        for v in vals:
+            yield gen_case(rng, force=(fld, v))
 
 
-def gen_case(rng):
+def gen_case(rng, force=None):
     regs = Regs()
     SR = rng.choice([1e9, 2.4e9, 25e9, 1000.0, 4e12, 1e13])
     # outcome classes (measured, see DESIGN 9.7): package produced / one voltage outside / a sequencing value at or
     # beyond an instrument limit (voltages inside, so that the sequencing guard is reached) / fewer than 2400 points
     klass = rng.choice(["inside"] * 9 + ["voltage"] * 4 + ["sequencing"] * 5 + ["short"] * 2)
+    if force:
+        klass = "sequencing"
     short = klass == "short"
     N = 2399 if short else rng.choice([2400, 2400, 2401, 2500, 2600])
     nch = rng.randint(1, 3)
@@ -121,6 +129,9 @@ def gen_case(rng):
                        "jump_target": rng.choice([-1, 0, 1, npos]), "goto": rng.choice([0, 1, npos]),
                        "jump_input": rng.choice([0, 1, 2, 3])}[fld]
             prog.append(("SSetSequencing", s, pos, fld, val))
+    if force:
+        fv = {"N": npos, "N+1": npos + 1}.get(force[1], force[1])
+        prog = [o for o in prog if o[0] != "SSetSequencing"] + [("SSetSequencing", s, rng.randint(1, npos), force[0], fv)]
     if rng.random() < 0.6:
         prog.append(("SSetName", s, rng.choice(["myseq", "seq_1", "x"])))
     prog += [("OSChannels", s), ("OSForge", s, True, True, False), ("OSSeqx", s, False), ("OSSeqx", s, True)]
